@@ -51,6 +51,9 @@ CORPUS = [
     "H reg 4;reg 5;reg 7;inst 0 0;inst 0 0;inst 1 0;inst 2 0;alias 2 11;setarg 0 10 4;export 4 11",
     # explicit imports as arguments, definitions, names
     "H reg 1;reg 2;imp 0 0;imp 1 1;inst 0 0;inst 1 0;setarg 2 0 0;setarg 3 1 1;setarg 3 0 0;def 6 0;def 7 2;alias 2 1;export 4 1;name 2 24;name 4 25",
+    # shared import named by version order (1.2.0 > 1.1.5) / separate imports for tracks that are textual prefixes of each other
+    "H reg 13;reg 12;reg 15;inst 0 0;inst 1 0;inst 2 0;inst 1 0",
+    "H reg 20;reg 19;reg 21;inst 0 0;inst 1 0;inst 2 0;alias 2 16;export 3 16",
     # use-dependent interfaces: producer feeds consumer, shared `types`
     "H reg 9;reg 10;inst 1 0;alias 0 19;inst 0 0;setarg 2 19 1;alias 2 9;export 3 9",
 ]
@@ -163,8 +166,10 @@ def run(res, tier, seed, replay):
         spec_failures_on_impl=len(prop_fail), distinct_nontrivial=len(shapes), encode_outcomes=outcome_hist,
         known_finding_observations={k: len(v) for k, v in known_hits.items()},
         c01_class_observations=c01,
-        rule="compositions: regression corpus + random accepted API histories over a universe of 12 packages (4 from C06, 4 with "
-             "versioned interface-style imports on same/different semver tracks, 1 provider, 3 WIT-derived with `use`), local type "
+        rule="compositions: regression corpus + random accepted API histories over a universe of 23 packages (4 from C06, 4 with "
+             "versioned interface-style imports on same/different semver tracks, 1 provider, 3 WIT-derived with `use`, 11 importing one "
+             "interface at versions whose numeric and textual/field-wise orders disagree: v:w/i@1.1.5/1.2.0/1.10.0/1.4.0/12.0.1/1.3.0-rc.1/"
+             "1.2.0+b5, p:q/r@0.2.0/0.2.10/0.21.0/0.3.0), local type "
              "definitions, explicit imports (incl. kinds carrying interface ids), aliases of aliases, exports under several names, "
              "node names; each abstract composition is replayed under up to 3 (quick) / 4 (thorough) dependency-preserving creation "
              "orders; every one is encoded with define_components on/off x validate on/off. non-trivial = distinct wiring "
